@@ -1570,3 +1570,63 @@ Definition t81_emit_lossless (its : list litem) (eoi_fill : nat) (im : limage) :
   | Some segs => Some (emit_stream {| st_segs := segs; st_eoi_fill := eoi_fill |})
   | None => None
   end.
+
+(* ============== Annex G.1.2: a spec-level progressive Huffman WRITER (block level) === *)
+(* Legal but simple: every block ends its own EOB run (EOB0), correction bits follow the
+   symbol whose run passes them (G.1.2.3).  src holds the final coefficients (same keys as
+   the decoder's arrays).  Used to state the Annex G round trip (proofs/T81ProgWriterProofs.v). *)
+Definition pt_mag (v al : Z) : Z := if v <? 0 then - ((- v) / 2 ^ al) else v / 2 ^ al.
+
+Definition pband (src : PM.t Z) (w r c ss se al : Z) : list Z :=
+  map (fun i => pt_mag (pget src w r c (ss + i)) al) (zrange (se - ss + 1)).
+
+Fixpoint wr_band (m : PM.t Z) (w r c k al : Z) (vs : list Z) : PM.t Z :=
+  match vs with
+  | [] => m
+  | v :: t => wr_band (if v =? 0 then m else pset m w r c k (v * 2 ^ al)) w r c (k + 1) al t
+  end.
+
+(* AC first scan, one block: F.1.2.2 run-length coding of the point-transformed band *)
+Definition penc_ac_first (ac : hcoder) (src : PM.t Z) (w r c ss se al : Z) : option (list bool) :=
+  enc_ac (hc_enc ac) (pband src w r c ss se al) 0.
+
+(* AC refinement: per band index (|ZZ(k)| >> Al, ZZ(k) < 0) *)
+Definition pabs (src : PM.t Z) (w r c ss se al : Z) : list (Z * bool) :=
+  map (fun i => let v := pget src w r c (ss + i) in (Z.abs v / 2 ^ al, v <? 0)) (zrange (se - ss + 1)).
+Definition has_new (l : list (Z * bool)) : bool := existsb (fun p => fst p =? 1) l.
+Definition corr_bits (l : list (Z * bool)) : list bool :=
+  flat_map (fun p : Z * bool => if 2 <=? fst p then [Z.odd (fst p)] else []) l.
+
+Fixpoint enc_ref (acE : Z -> option (list bool)) (l : list (Z * bool)) (top : bool) (z : Z) (br : list bool)
+  : option (list bool) :=
+  match l with
+  | [] => Some []
+  | (a, neg) :: t =>
+    if top && negb (has_new l) then
+      match acE 0 with Some e => Some (e ++ corr_bits l) | None => None end          (* EOB0 + correction bits *)
+    else if a =? 0 then
+      if z =? 15 then
+        match acE 240, enc_ref acE t false 0 [] with Some zr, Some b => Some (zr ++ br ++ b) | _, _ => None end
+      else enc_ref acE t false (z + 1) br
+    else if a =? 1 then
+      match acE (16 * z + 1), enc_ref acE t true 0 [] with
+      | Some s, Some b => Some (s ++ [negb neg] ++ br ++ b)
+      | _, _ => None
+      end
+    else enc_ref acE t false z (br ++ [Z.odd a])
+  end.
+
+Definition penc_ac_refine (ac : hcoder) (src : PM.t Z) (w r c ss se al : Z) : option (list bool) :=
+  enc_ref (hc_enc ac) (pabs src w r c ss se al) true 0 [].
+
+(* the arrays after the refinement of a band described by l, starting at index k *)
+Fixpoint wr_ref (m : PM.t Z) (w r c k p1 : Z) (l : list (Z * bool)) : PM.t Z :=
+  match l with
+  | [] => m
+  | (a, neg) :: t =>
+    let v := pget m w r c k in
+    let m1 := if a =? 1 then pset m w r c k (if neg then - p1 else p1)
+              else if (2 <=? a) && Z.odd a then pset m w r c k (if v >=? 0 then v + p1 else v - p1)
+              else m in
+    wr_ref m1 w r c (k + 1) p1 t
+  end.
